@@ -6,6 +6,7 @@ import (
 	"reflect"
 	"sort"
 	"strings"
+	"sync/atomic"
 	"time"
 
 	"github.com/grailbio/bigslice"
@@ -204,12 +205,14 @@ func runC16e2e(t *vf.T, pool *sessionPool, c c16args, conf sessConf) {
 	select {
 	case <-done:
 	case <-time.After(120 * time.Second):
+		atomic.AddInt32(&ls.failedRuns, 1)
 		t.Inconclusive("watchdog")
 		pool.drop(conf)
 		return
 	}
 	sig := "args exec=" + conf.Kind
 	if err != nil {
+		atomic.AddInt32(&ls.failedRuns, 1)
 		t.Violate(sig+" run-failed iface="+c.I+"/"+c.J, fmt.Sprintf("Run with encodable arguments failed: %v", err))
 		pool.drop(conf)
 		return
@@ -282,6 +285,7 @@ func runC16codec(t *vf.T, c c16args) {
 
 func runC16unencodable(t *vf.T, name string, v interface{}, conf sessConf) {
 	ls := startSession(conf)
+	atomic.AddInt32(&ls.failedRuns, 1) // the run is expected to fail: see liveSession.Close
 	defer ls.Close()
 	done := make(chan struct{})
 	var err error
